@@ -961,11 +961,18 @@ theorem depth_liftI {r : Except Num.MathErr Int} {val : Item} (h : Num.liftI r =
 theorem depth_liftF {r : Except Num.MathErr F64} {val : Item} (h : Num.liftF r = .ok val) : depth val = 0 := by
   cases r <;> simp [Num.liftF, Except.map] at h; subst h; simp [depth]
 
+theorem depth_int64Math {a b : Int} {op : BinOp} {val : Item} (h : Num.int64Math a b op = .ok val) :
+    depth val = 0 := by
+  unfold Num.int64Math at h
+  split at h
+  · exact depth_liftF h
+  · exact depth_liftI h
+
 theorem depth_mathOpI {a : Int} {r : Item} {op : BinOp} {val : Item} (h : Num.mathOpI a r op = .ok val) :
     depth val = 0 := by
   unfold Num.mathOpI at h
   repeat' split at h
-  all_goals first | exact depth_liftI h | exact depth_liftF h | simp at h
+  all_goals first | exact depth_int64Math h | exact depth_liftI h | exact depth_liftF h | simp at h
 
 theorem depth_mathOpF {a : F64} {r : Item} {op : BinOp} {val : Item} (h : Num.mathOpF a r op = .ok val) :
     depth val = 0 := by
